@@ -470,6 +470,16 @@ class CallMixin:
                 return ret
             if attr == "visit" and owner in ("Phase1Transpiler", "Phase2Transpiler", "DumpAST"):
                 return self.recursive_visit(owner, node)
+        if attr == "clone" and not args and not (owner and self.eng.find_class(owner)):
+            # activations, name containers and referents copy one another through a method of this name; the receiver's
+            # class is not tracked for attributes of these objects, so every repository `clone` may run
+            for cname in ("Activation", "NameContainer", "Referent"):
+                mcv = self.eng.method_cv(cname, "clone") if self.eng.find_class(cname) else None
+                if mcv is not None:
+                    a = [STRUCT]
+                    effs, _ = self.eng.analyze(mcv, a)
+                    self.absorb(effs, f"{cname}.clone at {here}", (mcv.key(), tuple(x.key() for x in a)))
+            return STRUCT
         if attr == "get" and recv.elem is not None:
             return recv.elem
         if attr == "parse" and (d.endswith("CEL_PARSER") or d.endswith(".parser") or d.endswith("lark")):
